@@ -158,8 +158,13 @@ pub fn tod_field_pattern(r: &mut Rng) -> i128 {
 }
 
 fn pick_tod(r: &mut Rng) -> i128 {
-    match r.below(15) {
+    match r.below(17) {
         12 | 13 | 14 => tod_field_pattern(r),
+        // the last / first seconds of the day, as many as the time scales differ by (see props/epoch.rs, day of year)
+        15 | 16 => {
+            let k = *r.pick(&[1i128, 5, 10, 18, 19, 20, 32, 33, 34, 36, 37, 38, 51]) * 1_000_000_000 - r.below(1_000_000_000) as i128;
+            if r.chance(2, 3) { NPD - k } else { k }
+        }
         0 | 1 => 0,
         2 | 3 => LAST_NS,
         4 => 1,
